@@ -1,7 +1,7 @@
 CONSTANTS
  Copies = {"c1", "c2"}
  Confs <- ShapeConfs
- MaxCloses = 2
+ MaxCloses = 3
  MaxOps = 2
  Eager = TRUE
 SPECIFICATION Spec
